@@ -77,6 +77,21 @@ def rx(pat):
     return tr(sre_parse.parse(pat))
 
 
+def rx_py(pat, func="match"):
+    """Language of strings s for which re.<func>(pat, s) succeeds *consuming the whole string up to Python's
+    end anchor*: for match/search a trailing `$` also matches just before one final newline
+    (so `^[a-z]+$` accepts "abc\n"); `\Z` and fullmatch do not. Only patterns anchored at both ends."""
+    p = list(sre_parse.parse(pat))
+    if func == "fullmatch":
+        return tr(p)  # the whole string has to be consumed; `$` cannot skip a final newline here
+    if not p or p[-1][0] is not C.AT or p[-1][1] not in (C.AT_END, C.AT_END_STRING):
+        raise NotImplementedError("pattern is not anchored at its end: " + pat)
+    body = tr(p)
+    if p[-1][1] is C.AT_END and func in ("match", "search"):
+        return z3.Concat(body, z3.Option(z3.Re("\n")))
+    return body
+
+
 def canonical_decimal():
     return z3.Union(z3.Re("0"), z3.Concat(z3.Range("1", "9"), z3.Star(z3.Range("0", "9"))))
 
